@@ -200,12 +200,17 @@ where
         // swap edge endpoints,
         // edge incoming / outgoing lists,
         // node incoming / outgoing lists
+        // (vacant slots are skipped: their `next` fields are the links of the free lists)
         for edge in &mut self.g.edges {
-            edge.node.swap(0, 1);
-            edge.next.swap(0, 1);
+            if edge.weight.is_some() {
+                edge.node.swap(0, 1);
+                edge.next.swap(0, 1);
+            }
         }
         for node in &mut self.g.nodes {
-            node.next.swap(0, 1);
+            if node.weight.is_some() {
+                node.next.swap(0, 1);
+            }
         }
     }
 
